@@ -122,6 +122,9 @@ META = dict(
                "pvm/ref/netmeasures.py",
 )
 
+META["rule"] += (
+    " " + "Added after the second round of seeded changes: family 'large dense' (a group of 135/160/270 nodes at density >= 0.97): count-valued cross / internal measures and the '_sparse' twins against int64 definitions.")
+
 RT = 1e-10
 LW = "lw"
 
